@@ -438,6 +438,11 @@ pub fn sequential(sc: &Scenario) -> Result<Sequential, String> {
         settle(&mut p, &mut out);
         prologue2(&mut p, sc);
         if !pump(&mut p, None, &mut out, Instant::now() + Duration::from_secs(20), |o| !o.diags2.is_empty()) {
+            // nothing was published for the second document: a verdict only if the server has
+            // physically gone quiet (every thread asleep) - then nothing will ever come
+            if server_quiet(p.child.id()) && out.problems.is_empty() {
+                return Err("VIOLATION: with one document open, a second document is opened: no diagnostics are ever published for it (the server has gone quiet)".into());
+            }
             return Err("sequential prologue (second document) failed".into());
         }
         settle(&mut p, &mut out);
@@ -682,6 +687,10 @@ pub fn run(tier: Tier) -> i32 {
         let bound = if sc.msgs.len() > 3 { 1 } else { tier_bound };
         let seq = match sequential(sc) {
             Ok(s) => s,
+            Err(e) if e.starts_with("VIOLATION: ") => {
+                rep.violation(Violation { class: "no-diagnostics-for-an-open-document".into(), key: format!("{}|sequential session", sc.name), witness: json!({"scenario": sc.name, "choices": [], "threads": []}), detail: format!("[{}] even without any race: {}", sc.name, &e["VIOLATION: ".len()..]) });
+                continue;
+            }
             Err(e) => {
                 rep.machinery(format!("{}: {e}", sc.name));
                 continue;
